@@ -29,6 +29,8 @@ RULES = {
     "C09-e": "fill keeps the context of the filled value in the context field",
     "C09-f": "every constructor parameter of an accumulator reaches state or a call",
     "C09-g": "a template kept as a private deep copy is used by reset only through copy.deepcopy",
+    "C09-h": "no shared default state: a parameter default of an accumulator's methods is immutable (a default object is "
+             "created once at import and shared by every instance constructed without that argument)",
 }
 
 MUTATORS = {"append", "extend", "update", "add", "insert", "pop", "remove", "setdefault", "appendleft", "sort", "popitem", "discard"}
@@ -562,14 +564,71 @@ def check_ctor_params(ctx):
                                   construct="dropped-result:%s.%s" % (cls.name, name))
 
 
+IMMUTABLE_CTORS = {"builtins.tuple", "builtins.frozenset", "builtins.int", "builtins.float", "builtins.str", "builtins.bool",
+                   "builtins.bytes", "builtins.complex", "decimal.Decimal", "fractions.Fraction", "builtins.object"}
+
+
+def default_kind(res, d):
+    """'immutable' | 'mutable' | 'unknown' for a parameter default expression."""
+    if isinstance(d, (ast.Constant, ast.Lambda)):
+        return "immutable"
+    if isinstance(d, ast.UnaryOp):
+        return default_kind(res, d.operand)
+    if isinstance(d, ast.BinOp):
+        a, b = default_kind(res, d.left), default_kind(res, d.right)
+        return "immutable" if a == b == "immutable" else "unknown"
+    if isinstance(d, ast.Tuple):
+        ks = [default_kind(res, e) for e in d.elts]
+        return "mutable" if "mutable" in ks else ("unknown" if "unknown" in ks else "immutable")
+    if isinstance(d, (ast.List, ast.Dict, ast.Set, ast.ListComp, ast.DictComp, ast.SetComp)):
+        return "mutable"
+    if isinstance(d, (ast.Name, ast.Attribute)):
+        # a reference to a module-level object: sentinel, function, class -- not created per default
+        return "immutable"
+    if isinstance(d, ast.Call):
+        canon = res.call_canon(d)
+        if canon in IMMUTABLE_CTORS:
+            return "immutable"
+        t = res.resolve(d.func)
+        if t is not None and t.is_class:
+            return "mutable"
+        if canon in ("builtins.list", "builtins.dict", "builtins.set", "builtins.bytearray", "collections.deque",
+                     "collections.OrderedDict", "collections.defaultdict"):
+            return "mutable"
+        return "unknown"
+    return "unknown"
+
+
+def check_shared_defaults(ctx):
+    """C09-h: defaults are evaluated once; an accumulator (or other stateful object) given as a default is shared by all
+    instances built without that argument, so a freshly constructed element does not start empty."""
+    n = 0
+    for mod, cls in accumulators(ctx):
+        for name, fn in methods(cls).items():
+            for par, d in A.param_defaults(fn).items():
+                n += 1
+                k = default_kind(ctx.res, d)
+                if k == "unknown":
+                    ctx.unknown("C09-h", d, "%s.%s: default `%s=%s` not classified" % (cls.name, name, par, A.src(d)))
+                    continue
+                ctx.check("C09-h", k == "immutable", d, "%s.%s has the default `%s=%s`: the object is created once when the class is "
+                          "defined and shared by every %s constructed without %s -- a second fresh element starts with what the "
+                          "first one was filled with (and reset of one resets the other)" % (cls.name, name, par, A.src(d), cls.name, par),
+                          detail="%s.%s: default of %s is immutable" % (cls.name, name, par), construct="shared-default:%s.%s.%s" % (cls.name, name, par))
+    ctx.instances_floor("C09-h", n, 15, "parameter defaults of accumulator methods")
+
+
 def check(ctx):
     check_reset(ctx)
+    check_shared_defaults(ctx)
     check_dsum(ctx)
     check_last_context(ctx)
     check_ctor_params(ctx)
 
 
 VARIANTS = [
+    M("vmc-shared-default-sums", "lena/math/elements.py", "    def __init__(self, sum_sq=None, sum_=None, corrected=True,", "    def __init__(self, sum_sq=Sum(), sum_=Sum(), corrected=True,", ["C09-h"]),
+    M("storefilled-shared-list", "lena/flow/elements.py", "class StoreFilled(object):", "class StoreFilled(object):\n    def _unused(self, acc=[]):\n        return acc\n", ["C09-h"]),
     M("revert-fix-graph-scale", "lena/structures/graph.py", "        # the scale could be set from context during fill\n        self._scale = self._init_context[\"scale\"]\n", "", ["C09-a"]),
     V("mutant", "revert-fix-histogram-reset", None, None, None, ["C09-a", "C09-c"], edits=[
         ("lena/structures/histogram.py", "        self._hist = histogram(self._hist.edges, bins, self._initial_value)\n", "        self.bins = bins\n", 0)]),
